@@ -42,6 +42,7 @@ RULE = ('A case is a history: 1-3 example sets (C03 templates, default '
 RULE += ' ' + 'Also: input forms dict with zero-count keys, categorical Series with unused categories, byte strings with utf-8-sig (BOM-prefixed duplicates) and byte-string frequency dictionaries; pruning options (where repeating an example is a different multiset and is not generated); empty multisets by construction; the interpreter differential works on pairs of sets sharing their options, half of the interpreters in reverse order.'
 RULE += ' ' + 'Round 6: the third documented input form, a check function modelled on rexpy.example_check_function (random.sample of the failures beyond maxN), compared among its own calls; constructed sets of eight words where one of two extra letters is rare and do_all is 2-4, extracted twice through a check function with one seed and a disturbed global generator in between.'
 RULE += ' ' + "Round 7: seed 'seed-a' in the interpreter differential; defaultdict input with the zero-count entry a lookup leaves behind."
+RULE += ' ' + 'Round 8: one case in eighty is a set of 8006 distinct examples (written as a formula in the case) extracted four times with size=0 and no seed, the global generator disturbed and the order permuted in between.'
 ASSUMPTIONS = ['Series form goes through pdextract, which only takes a seed: '
                'it is compared with the default-option list extraction']
 
@@ -50,6 +51,26 @@ F_ORDER_SAMPLE = 'F-rexpy-sample-depends-on-order'
 VARIANTS = ['asis', 'perm', 'dict', 'repeat', 'series', 'dict0',
             'series-cat', 'bytes', 'bytes-dict', 'raises', 'function',
             'defaultdict']
+
+
+def generated_examples(kind):
+    """Large example sets written as a formula: 8000 distinct strings of
+    currency / section signs and six strings of accented letters (which
+    the expression for the signs happens to match as well)."""
+    import itertools
+    assert kind == 'currency8006'
+    bulk = []
+    for n in range(1, 8):
+        for t in itertools.product('\u20ac\xa3\xa5\xa7', repeat=n):
+            bulk.append(''.join(t))
+    return bulk[:8000] + ['\xe9', '\xdf\xdf', '\xf1\xf1\xf1',
+                          '\xf8\xf8\xf8\xf8', '\xfc' * 5, '\xe5' * 6]
+
+
+def expanded(s):
+    if s.get('examples_gen'):
+        return dict(s, examples=generated_examples(s['examples_gen']))
+    return s
 
 
 def check_function_for(xs, sampled):
@@ -171,11 +192,32 @@ def add_function_steps(case):
     return case
 
 
+def big_unsampled():
+    """More than 4000 distinct examples with sampling switched off
+    (size=0) and no seed: the result does not depend on the state of the
+    global generator, nor on the order."""
+    return st.integers(0, 5).map(lambda k: {
+        'sets': [{'examples_gen': 'currency8006', 'opts': {}, 'size': 0}],
+        'steps': [{'op': 'extract', 'set': 0, 'seed': None,
+                   'variant': 'asis', 'key': 0},
+                  {'op': 'rng', 'k': k},
+                  {'op': 'extract', 'set': 0, 'seed': None,
+                   'variant': 'asis', 'key': 0},
+                  {'op': 'rng', 'k': k + 3},
+                  {'op': 'extract', 'set': 0, 'seed': None,
+                   'variant': 'perm', 'key': k},
+                  {'op': 'rng', 'k': 1},
+                  {'op': 'extract', 'set': 0, 'seed': None,
+                   'variant': 'asis', 'key': 0}]})
+
+
 def strategy(tier):
-    return st.fixed_dictionaries({
+    usual = st.fixed_dictionaries({
         'sets': st.lists(set_strategy(tier), min_size=1, max_size=3),
         'steps': st.lists(step_strategy(), min_size=2, max_size=8),
     }).map(add_function_steps)
+    return st.integers(0, 79).flatmap(
+        lambda k: big_unsampled() if k == 0 else usual)
 
 
 def valid(case):
@@ -188,6 +230,9 @@ def valid(case):
     if not isinstance(sets, list) or not sets:
         return False
     for s in sets:
+        if s.get('examples_gen') == 'currency8006' and s.get(
+                'size') in (0, None) and s.get('opts') == {}:
+            continue
         c = {'examples': s.get('examples'), 'opts': s.get('opts'),
              'size': s.get('size'), 'form': 'list'}
         if not c03.valid(c):
@@ -366,7 +411,7 @@ def run(case, ctx):
         return judge_hashseed(s, {hs: res[hs][0] for hs in HASH_SEEDS})
     from tdda.rexpy import rexpy
     out = Outcome()
-    sets = case['sets']
+    sets = [expanded(s) for s in case['sets']]
     first = {}      # (set index, seed, 'opts'|'default') -> (result, step no)
     for n, step in enumerate(case['steps']):
         op = step['op']
